@@ -244,8 +244,9 @@ def run_case(case, workdir):
         import amr_kitchen.mandoline.cli as mcli
         from ..common import run_cli
         from ..refmodel import tree_digest as _td
-        m_ = positions[len(positions) // 3]
-        for limit, serial in ((None, False), (0, True)):
+        # (the second run at position 0.0 exactly, where the domain starts there: an option value that is falsy)
+        for m_, limit, serial in ((positions[len(positions) // 3], None, False),
+                                  (0 if (ref.geo_lo[n] == 0.0 and positions[0] == 0) else positions[len(positions) // 3], 0, True)):
             o1, o2 = os.path.join(workdir, "cli_plt"), os.path.join(workdir, "api_plt")
             argv = ["mandoline", path, "-f", "plotfile", "-o", o1, "-n", str(n), "-p", repr(sm.pos_of(m_)), "-v", "G", "A"] \
                 + (["-L", str(limit)] if limit is not None else []) + (["-s", "-V", "0"] if serial else [])       # default verbosity in parallel mode
